@@ -49,6 +49,8 @@ def le32(key, off):
 
 
 FOLD64 = z3.Function("FH_FOLD", BV64, BV64, BV64, BV64)  # (key identity, seed, #blocks) -> state
+# FH64B(key identity, seed): the value of the reference FastHash64, as a named function (bv mode)
+FH64B = z3.Function("FH64B", BV64, BV64, BV64)
 
 
 def fold_of(F):
@@ -110,9 +112,13 @@ class FastHash64(_Pure):
     def loops(self):
         return {0: self._inv}
 
-    # what callers in bv mode may assume: the same spec term
+    # callers see the *name* only: FH64B(key, seed) is by definition the reference value
+    # fh64_final(key, seed) that clause "spec" proves the result equal to
+    def call_defs(self, F):
+        return ()
+
     def call_ensures(self, F, mode):
-        return self.ensures(F)
+        yield "named", F.res == FH64B(F.key.kid, F.seed)
 
 
 @register
@@ -120,7 +126,8 @@ class FastHash32(_Pure):
     name = "hashes.fasthash32"
 
     def ensures(self, F):
-        h = fh64_final(F, fold_of(F))
+        # reference fasthash32: h - (h >> 32) of the reference fasthash64 (= FH64B by definition)
+        h = FH64B(F.key.kid, F.seed)
         yield "spec", F.res == z3.Extract(31, 0, h - z3.LShR(h, bv(32)))
 
 
